@@ -667,6 +667,44 @@ func streamC07(r *Rand, n int, o *Out) {
 		}
 	}
 	rec("", 0)
+	// which scheme is special is a matter of the parser's table: number-like hosts under tables without `file`, without
+	// anything, and with an added scheme — a host is read as an IPv4 address exactly when ITS scheme is special in THAT table
+	{
+		noFile := newCfg("specialSchemes-without-file", url.NewParser(url.WithSpecialSchemes(map[string]string{"http": "80", "https": "443", "ws": "80", "wss": "443", "ftp": "21"})), 0, 0)
+		none := newCfg("specialSchemes-empty", url.NewParser(url.WithSpecialSchemes(map[string]string{})), 0, 0)
+		added := newCfg("specialSchemes+sc", url.NewParser(url.WithSpecialSchemes(map[string]string{"http": "80", "https": "443", "ws": "80", "wss": "443", "ftp": "21", "file": "", "sc": "7"})), 0, 0)
+		for _, c := range []*Cfg{noFile, none, added, defaultCfg} {
+			for _, hs := range []string{"0x7f.1", "2130706433", "127.1", "1.2.3.4.5", "0x100.1", "09", "1.2.3.4", "0X10.010.8", "256", "4294967296", "1.2.3.4.", "a.1", "1.a"} {
+				h := &Hist{}
+				for _, sch := range []string{"file", "http", "sc", "ws", "foo"} {
+					in := sch + "://" + hs + "/p"
+					k := h.Parse(c, in)
+					orc.Eval("C07")
+					special := c.Opts.SpecialSchemes[sch]
+					_, isSpecial := c.Opts.SpecialSchemes[sch]
+					_ = special
+					if !isSpecial {
+						// a non-special url: the host is opaque text, never reinterpreted
+						if k < 0 || h.urls[k].Hostname() != hs || h.urls[k].IsIPv4() {
+							got := "rejected"
+							if k >= 0 {
+								got = h.urls[k].Hostname()
+							}
+							orc.Fail("C07", "non-special-host-reinterpreted", fmt.Sprintf("%s under %s: host %s", q(in), c.Name, q(got)), strings.Join(h.ops, " ; "))
+						}
+					}
+					if k >= 0 {
+						h.Set(k, 4, hs)
+					}
+				}
+				if k := h.Parse(c, "file://h/x"); k >= 0 {
+					h.Set(k, 4, hs)
+					h.Set(k, 3, hs+":")
+				}
+				o.EmitHist("t", h)
+			}
+		}
+	}
 	// boundaries in every radix and part count
 	for _, a := range ipv4Nums {
 		for np := 0; np < 4; np++ {
